@@ -11,6 +11,7 @@
 package c07
 
 import (
+	"time"
 	"bytes"
 	"encoding/json"
 	"errors"
@@ -215,6 +216,11 @@ func checkProgram(src string, st *fw.Stats, report func(k kase, what string)) {
 		return
 	}
 	baseFailed := base.err != ""
+	ne := len(base.events)
+	if ne > 8 {
+		ne = 8
+	}
+	st.Outcome(fmt.Sprintf("terminating:%d-builtin-calls:fails=%v", ne, baseFailed))
 	// determinism of the step count
 	for i := 0; i < 2; i++ {
 		again := execute(src, runCfg{})
@@ -306,9 +312,83 @@ func judgeLimit(base, r runOut, n uint64, baseFailed bool) string {
 	return ""
 }
 
+// hangAfter bounds a run that has a step limit of at most a few thousand steps
+// (microseconds of work). It is not an oracle of timing: a limited run that is
+// still going after a minute is one that the limit does not stop.
+const hangAfter = 60 * time.Second
+
+// executeGuarded runs a limited execution in a goroutine; hung reports that it
+// did not come back (the goroutine is abandoned, the process exits normally).
+func executeGuarded(src string, cfg runCfg) (out runOut, hung bool) {
+	done := make(chan runOut, 1)
+	go func() { done <- execute(src, cfg) }()
+	select {
+	case out = <-done:
+		return out, false
+	case <-time.After(hangAfter):
+		return runOut{}, true
+	}
+}
+
+// growthFamilies: programs whose amount of work is a parameter K. Each unit of
+// work (a loop iteration, a call, a comprehension element, a callback) must
+// cost at least one step, and the same number of steps whatever K is: a unit
+// of work that costs no steps is a computation that no limit can stop.
+var growthFamilies = []struct{ name, tmpl string }{
+	{"for-range", "for i in range(%d):\n    pass\n"},
+	{"for-range-in-def", "def f():\n    for i in range(%d):\n        pass\nf()\n"},
+	{"while-counter", "i = 0\nwhile i < %d:\n    i += 1\n"},
+	{"list-comprehension", "x = [i for i in range(%d)]\n"},
+	{"dict-comprehension", "x = {i: i for i in range(%d)}\n"},
+	{"nested-comprehension", "x = [j for i in range(%d) for j in (1, 2)]\n"},
+	{"comprehension-if", "x = [i for i in range(%d) if i]\n"},
+	{"calls-in-loop", "def g(v):\n    return v\nfor i in range(%d):\n    g(i)\n"},
+	{"recursion-depth", "def f(n):\n    return f(n - 1) if n else 0\nf(%d)\n"},
+	{"sorted-key-callback", "x = sorted(range(%d), key=lambda v: -v)\n"},
+	{"max-key-callback", "x = max(range(%d + 1), key=lambda v: v)\n"},
+	{"lambda-in-comprehension", "f = lambda v: v\nx = [f(i) for i in range(%d)]\n"},
+	{"break-continue-loop", "for i in range(%d):\n    if i < 0:\n        continue\n    x = i\n"},
+	{"nested-for", "for i in range(%d):\n    for j in (1, 2, 3):\n        pass\n"},
+	{"string-building", "s = ''\nfor i in range(%d):\n    s += 'a'\n"},
+	{"star-args-call", "def g(*a):\n    return a\nfor i in range(%d):\n    g(*[i])\n"},
+}
+
+func checkGrowth(st *fw.Stats, report func(k kase, what string)) {
+	for _, fam := range growthFamilies {
+		var prev, delta uint64
+		for K := 1; K <= 24; K++ {
+			src := fmt.Sprintf(fam.tmpl, K)
+			r := execute(src, runCfg{})
+			st.Evals++
+			if r.static || r.err != "" {
+				report(kase{Src: src, Kind: "growth"}, "harness: growth program failed: "+r.err)
+				break
+			}
+			if K >= 2 {
+				d := r.steps - prev
+				if r.steps <= prev {
+					report(kase{Src: src, Kind: "growth", N: uint64(K)}, fmt.Sprintf("family %s: %d units of work take %d steps, %d units take %d: a unit of work costs no steps, so no step limit can stop this computation when it is made longer", fam.name, K-1, prev, K, r.steps))
+					break
+				}
+				if K >= 3 && d != delta && fam.name != "sorted-key-callback" {
+					report(kase{Src: src, Kind: "growth", N: uint64(K)}, fmt.Sprintf("family %s: unit of work number %d costs %d steps but number %d cost %d: the step count of identical work is not a fixed quantity", fam.name, K, d, K-1, delta))
+					break
+				}
+				delta = d
+			}
+			prev = r.steps
+		}
+		st.Nontrivial++
+	}
+}
+
 func checkNonTerminating(src string, maxN uint64, st *fw.Stats, report func(k kase, what string)) {
 	for n := uint64(1); n <= maxN; n++ {
-		r := execute(src, runCfg{limit: n})
+		r, hung := executeGuarded(src, runCfg{limit: n})
+		if hung {
+			report(kase{Src: src, Kind: "nonterm", N: n}, fmt.Sprintf("a non-terminating program given a limit of %d steps was still running after %v: the limit does not stop it", n, hangAfter))
+			return
+		}
 		st.Evals++
 		st.Schedules++
 		if r.static {
@@ -321,6 +401,7 @@ func checkNonTerminating(src string, maxN uint64, st *fw.Stats, report func(k ka
 		if r.steps > n {
 			report(kase{Src: src, Kind: "nonterm", N: n}, fmt.Sprintf("limit %d: counted %d steps", n, r.steps))
 		}
+		st.Outcome(fmt.Sprintf("non-terminating:stopped-after-%d-probes", min(len(r.events), 8)))
 		for _, e := range r.events {
 			if e.step >= n {
 				report(kase{Src: src, Kind: "nonterm", N: n}, fmt.Sprintf("limit %d: probe fired at step %d", n, e.step))
@@ -375,7 +456,11 @@ func worker(c *fw.Ctx) *fw.Stats {
 			checkNonTerminating(src, maxN, st, report)
 		}
 	}
+	if c.Shard == 1%c.NShards {
+		checkGrowth(st, report)
+	}
 	if c.Shard == 0 {
+		st.Levels = append(st.Levels, fmt.Sprintf("%d families of programs with 1..24 units of work: every unit costs the same, positive number of steps", len(growthFamilies)))
 		st.Levels = append(st.Levels, fmt.Sprintf("corpus of %d terminating programs: all limits 1..S+1, all sync sites, all async points", len(progs)),
 			fmt.Sprintf("%d non-terminating programs: all limits 1..%d", len(nonTerminating), maxN))
 		stateMachine(c, st, report)
@@ -651,6 +736,8 @@ func replay(c *fw.Ctx, raw json.RawMessage) []fw.Viol {
 		stateMachine(c, st, report)
 	case "nonterm":
 		checkNonTerminating(k.Src, k.N, st, report)
+	case "growth":
+		checkGrowth(st, report)
 	default:
 		checkProgram(k.Src, st, report)
 	}
